@@ -69,6 +69,8 @@ def run(ctx):
                        not fd, loc=loc(init, o.node), detail='width = %s' % key)
     if n_w == 0:
         ctx.unknown('T15.width', init.fq, 'no store to self._thresh_count found in __init__', init.loc)
+    from rules.common import check_default_returned
+    check_default_returned(ctx, prog, prog.func(CLS + '.get'), recv=ci)
     mc = prog.func(CLS + '.most_common')
     # T19a: `n is None` must be reachable: no earlier return under a truthiness test of n
     check_none_default(ctx, mc, 'n', rule='T19a')
